@@ -44,6 +44,35 @@ def sgr_params(kind, number=None, triplet=None, foreground=True):
     raise ValueError(kind)
 
 
+
+def to_256(r, g, b):
+    """The documented truecolor -> 256 rule (the comment in Color.downgrade: "if saturation is under 10% assume it is
+    grayscale"): HLS saturation below 0.1 goes to black / the 24-step grey ramp / white by lightness, everything else
+    to the 6x6x6 cube by rounding each channel to fifths.  Written with the standard library's colorsys on the same
+    normalised floats, so that the boundary s == 0.1 falls where the rule says (not under 10% -> cube)."""
+    import colorsys
+    red, green, blue = r / 255.0, g / 255.0, b / 255.0
+    _h, l, s = colorsys.rgb_to_hls(red, green, blue)
+    if s < 0.1:
+        gray = round(l * 25.0)
+        return 16 if gray == 0 else 231 if gray == 25 else 231 + gray
+    return 16 + 36 * round(red * 5.0) + 6 * round(green * 5.0) + round(blue * 5.0)
+
+
+def saturation_boundary_colours(tol=1e-12):
+    """All (r, g, b) whose HLS saturation is 0.1 up to `tol`, and their neighbours in saturation: the colours that
+    tell `<` from `<=` in the grey test.  Saturation depends on the largest and smallest channel only."""
+    import colorsys
+    out = []
+    for mx in range(256):
+        for mn in range(mx):
+            s = colorsys.rgb_to_hls(mx / 255.0, mn / 255.0, mn / 255.0)[2]
+            if abs(s - 0.1) <= tol:
+                for mid in sorted({mn, mx, (mn + mx) // 2}):
+                    out.extend({(mx, mid, mn), (mn, mid, mx), (mid, mx, mn), (mid, mn, mx), (mx, mn, mid), (mn, mx, mid)})
+    return sorted(set(out))
+
+
 def selftest():
     p = xterm256()
     assert len(p) == 256 and p[16] == (0, 0, 0) and p[231] == (255, 255, 255) and p[232] == (8, 8, 8)
